@@ -39,6 +39,7 @@ type Solver struct {
 	timeout int // ms per check
 	ndefs   int
 	dead    bool
+	shortTimeout bool
 }
 
 func StartSolver(timeoutMs int) (*Solver, error) {
@@ -94,6 +95,7 @@ func (s *Solver) Reset() {
 	s.em = NewEmitter()
 	s.asserts = s.asserts[:0]
 	s.ndefs = 0
+	s.shortTimeout = false
 	if s.dead {
 		s.Close()
 		if err := s.start(); err != nil {
@@ -158,6 +160,26 @@ func (s *Solver) CheckSet(terms []*Term, vars []string, wantModel bool) (SatResu
 	}
 	s.seq++
 	marker := "<<" + strconv.Itoa(s.seq) + ">>"
+	// multiplication/division kernels: bit-blasting rarely finishes; give the primary 2 s, then the
+	// integer-encoding back end (cvc5 --solve-bv-as-int) gets its turn in the fallback portfolio
+	muldiv := false
+	if gPrimarySolver != "cvc5" {
+		seen := map[*Term]bool{}
+		for _, t := range terms {
+			if hasMulDiv(t, seen) {
+				muldiv = true
+				break
+			}
+		}
+		if muldiv != s.shortTimeout {
+			s.shortTimeout = muldiv
+			if muldiv {
+				sb.WriteString("(set-option :timeout 2000)\n")
+			} else {
+				fmt.Fprintf(&sb, "(set-option :timeout %d)\n", s.timeout)
+			}
+		}
+	}
 	if gPrimarySolver == "cvc5" {
 		// cvc5's check-sat cost does not grow with the number of definitions: keep them in the session
 		if len(s.em.defined) > 1_000_000 {
@@ -351,7 +373,9 @@ func (s *Solver) fallback(extra *Term, wantModel bool) (SatResult, Model) {
 			<-done
 		}
 		text := out.String()
-		if strings.Contains(text, "(error") {
+		// an "(error" line before the verdict (or with a sat verdict) makes the answer inconclusive; after
+		// "unsat" the only possible error is the get-value request of the script, which is expected
+		if strings.Contains(text, "(error") && strings.TrimSpace(firstLine(strings.TrimSpace(text))) != "unsat" {
 			if gDebug {
 				fmt.Println("FALLBACK ERROR", be.name, firstLine(text))
 			}
